@@ -1,0 +1,21 @@
+//go:build verif
+
+package vhost
+
+// Accessors for the C06 correspondence harness (compiled only with -tags verif).
+
+// VerifRouterPayload returns the payload stored in a route returned by Routers.Get.
+func VerifRouterPayload(r *Router) any {
+	if r == nil {
+		return nil
+	}
+	return r.payload
+}
+
+// VerifRouteID returns the registration number HTTPReverseProxy.Register gave a route config.
+func VerifRouteID(rc *RouteConfig) uint64 {
+	if rc == nil {
+		return 0
+	}
+	return rc.id
+}
